@@ -150,6 +150,7 @@ void mvsim_now_ts(struct timespec *ts) {
   ts->tv_sec = (time_t)(t / 1000000000ULL); ts->tv_nsec = (long)(t % 1000000000ULL);
 }
 uint64_t mvsim_last_clock_ns(void) { return g_clock_last_value; }
+uint64_t mvsim_clock_reads(void) { return g_st.clock_reads; }
 uint64_t mvsim_probe_count(int site) { return (site >= 0 && site < 160) ? g_st.probe[site] : 0; }
 int mvsim_n_workers_done(void) { return g_ndone; }
 int mvsim_n_workers_spawned(void) { return g_nspawned; }
@@ -530,7 +531,7 @@ worker *mvsim_dispatch(struct mvreq *r) {
       break;
     case RQ_EXIT:
       g_progress++;
-      w->state = W_DONE; g_ndone++;
+      w->state = W_DONE; if (w->id < NATIVE_BASE) g_ndone++;
       release_waiters_of(w->id);
       break;
     case RQ_QUIESCE:
